@@ -83,3 +83,12 @@ package inverted
 //@   ensures callarg(Search, 1, 3) == options.Operator
 //@   ensures old(inv.params.CaseSensitive) ==> callarg(Search, 1, 1) == options.Value && callarg(Search, 1, 2) == options.EndValue
 //@   ensures !old(inv.params.CaseSensitive) ==> callarg(Search, 1, 1) == lower(options.Value) && callarg(Search, 1, 2) == lower(options.EndValue)
+
+// flush (properties C02, C07, C08): a bucket write or delete that fails is never swallowed - the
+// flush stops and reports an error, so the enclosing write batch is rolled back as a whole.
+//@ func (*IndexInverted).flush
+//@   property C02 C07 C08
+//@   arith bv
+//@   safety -overflow -nil
+//@   ensures result == nil ==> lastres(Put) == nil && lastres(Delete) == nil
+//@   loop 1 invariant lastres(Put) == nil && lastres(Delete) == nil
